@@ -8,6 +8,8 @@ import (
 	"go/token"
 	"go/types"
 	"slices"
+	"strings"
+	"unsafe"
 
 	"golang.org/x/tools/go/ssa"
 )
@@ -40,8 +42,17 @@ type frame struct {
 	skipPhis         bool
 }
 
+// vkey is the identity of an SSA value (all SSA values are pointers to distinct
+// heap objects; Go's collector does not move them).
+func vkey(v ssa.Value) uintptr {
+	return (*[2]uintptr)(unsafe.Pointer(&v))[1]
+}
+
 func (fr *frame) get(key ssa.Value) value {
-	if i, ok := fr.info.idx[key]; ok {
+	if key == nil {
+		return nil
+	}
+	if i, ok := fr.info.idx[vkey(key)]; ok {
 		if i >= 0 {
 			return fr.env[i]
 		}
@@ -69,13 +80,13 @@ func (fr *frame) get(key ssa.Value) value {
 }
 
 func (fr *frame) set(key ssa.Value, v value) {
-	fr.env[fr.info.idx[key]] = v
+	fr.env[fr.info.idx[vkey(key)]] = v
 }
 
 // fnInfo is the per-function register numbering and constant pool (built once,
 // read-only afterwards, shared by all workers).
 type fnInfo struct {
-	idx         map[ssa.Value]int32
+	idx         map[uintptr]int32
 	nregs       int
 	consts      []value
 	ext         externalFn
@@ -87,10 +98,10 @@ func (sh *Shared) infoFor(fn *ssa.Function) *fnInfo {
 	if v, ok := sh.fnInfos.Load(fn); ok {
 		return v.(*fnInfo)
 	}
-	info := &fnInfo{idx: make(map[ssa.Value]int32), firstNonPhi: make(map[*ssa.BasicBlock]int)}
+	info := &fnInfo{idx: make(map[uintptr]int32), firstNonPhi: make(map[*ssa.BasicBlock]int)}
 	reg := func(v ssa.Value) {
-		if _, ok := info.idx[v]; !ok {
-			info.idx[v] = int32(info.nregs)
+		if _, ok := info.idx[vkey(v)]; !ok {
+			info.idx[vkey(v)] = int32(info.nregs)
 			info.nregs++
 		}
 	}
@@ -119,7 +130,7 @@ func (sh *Shared) infoFor(fn *ssa.Function) *fnInfo {
 					continue
 				}
 				if c, ok := (*op).(*ssa.Const); ok {
-					if _, seen := info.idx[c]; seen {
+					if _, seen := info.idx[vkey(c)]; seen {
 						continue
 					}
 					cv := constValue(c)
@@ -128,7 +139,7 @@ func (sh *Shared) infoFor(fn *ssa.Function) *fnInfo {
 						continue // fresh value per use
 					}
 					info.consts = append(info.consts, cv)
-					info.idx[c] = int32(-len(info.consts))
+					info.idx[vkey(c)] = int32(-len(info.consts))
 				}
 			}
 		}
@@ -259,7 +270,7 @@ func (m *Machine) visitInstr(fr *frame, instr ssa.Instruction) continuation {
 
 	case *ssa.Store:
 		addr := m.derefCheck(fr.get(instr.Addr).(*value))
-		if g, ok := instr.Addr.(*ssa.Global); ok && g.Pkg == m.target && !m.inInit {
+		if g, ok := instr.Addr.(*ssa.Global); ok && g.Pkg == m.target && !m.inInit && !strings.HasPrefix(g.Name(), "vf") {
 			m.globalWrites = append(m.globalWrites, g.Name()+" at "+m.pos())
 		}
 		m.store(mustDeref(instr.Addr.Type()), addr, fr.get(instr.Val))
